@@ -80,6 +80,7 @@ static Run execute(cs::Ctx& ctx, bool msgpack, const std::string& bytes, FilterM
 
 // a filter related to the shape of v
 static Val derive_filter(cs::Src& s, const Val& v, int depth) {
+  if (depth > 60) return Val::boolean(true);  // byte-driven generation could otherwise nest "*" without end
   static const unsigned w[] = {4, 2, 1, 8, 2};
   static const unsigned wtop[] = {1, 1, 1, 14, 3};
   switch (depth == 0 ? s.pick(wtop) : s.pick(w)) {
@@ -163,7 +164,8 @@ static void check_pair(cs::Ctx& ctx, cs::Src* s, bool msgpack, const std::string
     JsonDocument copy;
     std::string tmp;
     serializeMsgPack(fdoc, tmp);
-    deserializeMsgPack(copy, tmp.data(), tmp.size(), DeserializationOption::NestingLimit(200));
+    DeserializationError ce = deserializeMsgPack(copy, tmp.data(), tmp.size(), DeserializationOption::NestingLimit(255));
+    if (ce) ctx.fail("harness", std::string("the filter document could not be copied: ") + ce.c_str());
     fdoc = copy;
   }
   Run u = execute(ctx, msgpack, bytes, F_NONE, nullptr, limit);
